@@ -65,6 +65,9 @@ def run(ctx):
         ev = (table.nth_line(tf, k) or "")[:400]
         ctx.violation("memory scenario on %s/%s is not a behaviour of Trace_Mem (leak / red-zone damage / double free / crash / result depends on heap contents): %s" % (be, kind, ev),
                       detail={"accepted_prefix": k - 1, "of": n, "event": ev}, files=[tf])
+    rm = tlc.run_tlc("Threads", cfg="Threads_poly_handed_over.cfg", workdir=ctx.dir, workers=2)
+    if rm.violated != "PolyProcAlive":
+        raise CheckBroken("the Threads model no longer shows the polynomial / processor lifetime hazard (D8): %r" % rm)
     # 2b. thread create / exit histories x object lifetimes: a Lagrange polynomial keeps (in its public precomp field) a pointer to the FFT processor of the thread
     #     that created it, and every operation writing the polynomial reads that processor.  Probe: polynomial created by a thread that exits, then used by the
     #     main thread; Trace_Threads decides by identity (PolyUse requires the recorded processor to be alive and still its creator's) - the outcome of the
